@@ -158,15 +158,18 @@ def located(genome, alpha, blocks, strand):
     return Sequence(data, alpha, parent=Parent(id="chr", sequence=Sequence(genome, alpha), location=_loc(blocks, strand, None)))
 
 
-def consistent(seq, genome):
-    """recorded location re-extracts the characters"""
+def consistent(seq, genome, ut=False):
+    """recorded location re-extracts the characters (ut: up to U~T - complementing twice turns U into T, the position is still the same base)"""
     loc = seq.parent.location
     if loc is None:
         return False
     if loc is EmptyLocation() or len(loc) == 0:
         return str(seq) == ""
     sb = [(b.start, b.end) for b in loc.blocks]
-    return str(seq) == expected(genome, sb, loc.strand) and len(seq) == len(loc)
+    a, b = str(seq), expected(genome, sb, loc.strand)
+    if ut:
+        a, b = _ut(a), _ut(b)
+    return a == b and len(seq) == len(loc)
 
 
 def slice_fn(alpha, genome, k, strand):
@@ -236,8 +239,8 @@ def revcomp_fn(alpha, genome, k, strand):
             s = located(genome, alpha, blocks, strand)
             r = s.reverse_complement()
             rr = r.reverse_complement()
-            return str(r) == revcomp(str(s)) and consistent(r, genome) and str(rr) == str(s).replace("U", "T").replace("u", "t") \
-                and consistent(rr, genome) and r.parent.location.strand is strand.reverse() and consistent(s, genome)
+            return str(r) == revcomp(str(s)) and consistent(r, genome, ut=True) and str(rr) == str(s).replace("U", "T").replace("u", "t") \
+                and consistent(rr, genome, ut=True) and r.parent.location.strand is strand.reverse() and consistent(s, genome)
 
     return fn
 
